@@ -93,10 +93,10 @@ struct ProgressProducer<T> {
 
 impl<T, P: Producer<Item = T>> Producer for ProgressProducer<P> {
     type Item = T;
-    type IntoIter = ProgressBarIter<P::IntoIter>;
+    type IntoIter = ProgressPart<P::IntoIter>;
 
     fn into_iter(self) -> Self::IntoIter {
-        ProgressBarIter {
+        ProgressPart {
             it: self.base.into_iter(),
             progress: self.progress,
         }
@@ -122,6 +122,41 @@ impl<T, P: Producer<Item = T>> Producer for ProgressProducer<P> {
                 progress: self.progress,
             },
         )
+    }
+}
+
+/// Sequential iterator over one part of a split producer: counts the items, but unlike
+/// `ProgressBarIter` does not finish the bar when it runs out - the other parts are still counting
+struct ProgressPart<I> {
+    it: I,
+    progress: ProgressBar,
+}
+
+impl<I: Iterator> Iterator for ProgressPart<I> {
+    type Item = I::Item;
+
+    fn next(&mut self) -> Option<Self::Item> {
+        let item = self.it.next();
+        if item.is_some() {
+            self.progress.inc(1);
+        }
+        item
+    }
+}
+
+impl<I: ExactSizeIterator> ExactSizeIterator for ProgressPart<I> {
+    fn len(&self) -> usize {
+        self.it.len()
+    }
+}
+
+impl<I: DoubleEndedIterator> DoubleEndedIterator for ProgressPart<I> {
+    fn next_back(&mut self) -> Option<Self::Item> {
+        let item = self.it.next_back();
+        if item.is_some() {
+            self.progress.inc(1);
+        }
+        item
     }
 }
 
